@@ -855,9 +855,6 @@ static Result mismatch_body(const json &c, int phase) {
     r.cls(own ? "own-writer" : "votca-writer");
     r.nontrivial = true;
   }
-  r.cls(bad == 0 ? "first-frame" : "later-frame");
-  r.cls(own ? "own-writer" : "votca-writer");
-  r.nontrivial = true;
 
   auto make_top = [&](Topology &top, int count) {
     top.CreateResidue("RES");
